@@ -21,6 +21,7 @@ pub mod c15;
 pub mod c16;
 pub mod c17;
 pub mod c18;
+pub mod c19;
 pub mod iofault;
 
 pub fn get(id: &str) -> Option<Box<dyn Monitor>> {
@@ -43,6 +44,7 @@ pub fn get(id: &str) -> Option<Box<dyn Monitor>> {
         "C16" => Some(Box::new(c16::C16)),
         "C17" => Some(Box::new(c17::C17)),
         "C18" => Some(Box::new(c18::C18)),
+        "C19" => Some(Box::new(c19::C19)),
         _ => None,
     }
 }
